@@ -4,7 +4,11 @@
    exactly the hashes offered since the last reset ([off]) that lie in (0, theta); the count
    field is their number; theta <= theta0; num_entries <= capacity < table size; theta is below
    theta0 only if more than k distinct offered hashes lie in (0, theta0).
-   Every operation (update with ANY hash, trim, reset) preserves it and never gets stuck. *)
+   Every operation (update with ANY hash, trim, reset) preserves it and never gets stuck.
+
+   The order in which `rebuild` re-inserts the k smallest entries (left unspecified by
+   `select_nth_unstable`) is the section variable [reorder]; everything is proved for every
+   [reorder] that returns a permutation of its second argument ([reorder_ok]). *)
 From Coq Require Import List PArith NArith Nnat ZArith Bool Lia Permutation Sorted Floats.
 From Coq Require Import ZifyBool ZifyNat ZifyN.
 From DS Require Import Base.Prelude Base.FloatBits Base.ThetaLib Model.Theta.
@@ -17,10 +21,27 @@ Ltac Zify.zify_post_hook ::= Z.div_mod_to_equations.
 (* ---------- operation histories ---------- *)
 Inductive top := OUpdate (h : N) | OTrim | OReset | OCompact (ordered : bool).
 
+Definition reorder_ok (r : reorder_t) : Prop := forall es l, Permutation l (r es l).
+
+Lemma ascending_ok : reorder_ok ascending.
+Proof. intros es l. apply Permutation_refl. Qed.
+
+(* the hashes offered since the last reset *)
+Definition offered_step (off : list N) (o : top) : list N :=
+  match o with OUpdate h => h :: off | OReset => [] | _ => off end.
+Definition offered_from (off : list N) (ops : list top) : list N := fold_left offered_step ops off.
+Definition offered (ops : list top) : list N := offered_from [] ops.
+
+Definition nilb (l : list N) : bool := match l with [] => true | _ => false end.
+
+Section Reorder.
+Variable reorder : reorder_t.
+Hypothesis reorder_perm : reorder_ok reorder.
+
 Definition step_op (s : tsk) (o : top) : outcome tsk :=
   match o with
-  | OUpdate h => sk_update s h
-  | OTrim => sk_trim s
+  | OUpdate h => sk_update reorder s h
+  | OTrim => sk_trim reorder s
   | OReset => Ok (sk_reset s)
   | OCompact _ => Ok s            (* compact(&self) does not change the sketch *)
   end.
@@ -31,11 +52,7 @@ Fixpoint run_ops (s : tsk) (ops : list top) : outcome tsk :=
   | o :: r => obind (step_op s o) (fun s' => run_ops s' r)
   end.
 
-(* the hashes offered since the last reset *)
-Definition offered_step (off : list N) (o : top) : list N :=
-  match o with OUpdate h => h :: off | OReset => [] | _ => off end.
-Definition offered_from (off : list N) (ops : list top) : list N := fold_left offered_step ops off.
-Definition offered (ops : list top) : list N := offered_from [] ops.
+End Reorder.
 
 (* ---------- configuration ---------- *)
 Definition cfg_ok (c : tcfg) : Prop :=
@@ -116,8 +133,16 @@ Record InvW (c : tcfg) (s : tsk) (off : list N) : Prop := {
   w_est : t_theta s < theta0 c -> 2 ^ c_lg_nom c < N.of_nat (length (qual c off))
 }.
 
-Definition Inv (c : tcfg) (s : tsk) (off : list N) : Prop :=
+Definition InvC (c : tcfg) (s : tsk) (off : list N) : Prop :=
   InvW c s off /\ t_n s <= get_capacity (t_lg_cur s) (c_lg_nom c).
+
+(* the full invariant: is_empty <-> nothing was offered since the last reset *)
+Definition Inv (c : tcfg) (s : tsk) (off : list N) : Prop :=
+  InvC c s off /\ t_empty s = nilb off.
+
+(* the invariant does not look at the emptiness flag *)
+Lemma InvW_mark : forall c s off, InvW c s off -> InvW c (mark_offered s) off.
+Proof. intros c s off [H1 H2 H3 H4 H5 H6 H7]. constructor; assumption. Qed.
 
 Lemma entries_NoDup : forall c s off, InvW c s off -> NoDup (sk_entries s).
 Proof. intros c s off H. unfold sk_entries. apply OA_values_NoDup. apply (w_oa _ _ _ H). Qed.
@@ -155,7 +180,7 @@ Lemma resize_spec : forall s,
   t_lg_cur s <= N.min (t_lg_cur s + c_rf (t_cfg s)) (lg_max (t_cfg s)) ->
   N.of_nat (length (sk_entries s)) <= 2 ^ t_lg_cur s ->
   exists sl,
-    resize s = Ok (mkSk (t_cfg s) (N.min (t_lg_cur s + c_rf (t_cfg s)) (lg_max (t_cfg s))) (t_theta s) sl (t_n s)) /\
+    resize s = Ok (mkSk (t_cfg s) (N.min (t_lg_cur s + c_rf (t_cfg s)) (lg_max (t_cfg s))) (t_theta s) sl (t_n s) (t_empty s)) /\
     OA (N.min (t_lg_cur s + c_rf (t_cfg s)) (lg_max (t_cfg s))) sl /\
     Permutation (sk_entries s) (sl_values sl (2 ^ N.min (t_lg_cur s + c_rf (t_cfg s)) (lg_max (t_cfg s)))).
 Proof.
@@ -170,33 +195,40 @@ Proof.
 Qed.
 
 (* ---------- rebuild ---------- *)
+Section Reorder2.
+Variable reorder : reorder_t.
+Hypothesis reorder_perm : reorder_ok reorder.
+
 Lemma rebuild_spec : forall s,
   OA (t_lg_cur s) (t_slots s) ->
   (N.to_nat (2 ^ c_lg_nom (t_cfg s)) < length (sk_entries s))%nat ->
   2 ^ c_lg_nom (t_cfg s) <= 2 ^ t_lg_cur s ->
   exists sl,
-    rebuild s = Ok (mkSk (t_cfg s) (t_lg_cur s)
+    rebuild reorder s = Ok (mkSk (t_cfg s) (t_lg_cur s)
                          (nth (N.to_nat (2 ^ c_lg_nom (t_cfg s))) (sortN (sk_entries s)) 0)
-                         sl (2 ^ c_lg_nom (t_cfg s))) /\
+                         sl (2 ^ c_lg_nom (t_cfg s)) (t_empty s)) /\
     OA (t_lg_cur s) sl /\
     Permutation (firstn (N.to_nat (2 ^ c_lg_nom (t_cfg s))) (sortN (sk_entries s))) (sl_values sl (2 ^ t_lg_cur s)).
 Proof.
   intros s HOA Hk Hsize. set (k := 2 ^ c_lg_nom (t_cfg s)) in *. set (E := sk_entries s) in *.
   assert (ND : NoDup E) by (unfold E, sk_entries; now apply OA_values_NoDup).
   destruct (k_smallest E (N.to_nat k) ND Hk) as [Hth [Hmem [NDl Hlen]]]. cbv zeta in *.
-  destruct (insert_all_spec (t_lg_cur s) (firstn (N.to_nat k) (sortN E)) sl_empty) as [sl [Hrun [HOA' Hperm]]].
+  pose proof (reorder_perm E (firstn (N.to_nat k) (sortN E))) as HP.
+  destruct (insert_all_spec (t_lg_cur s) (reorder E (firstn (N.to_nat k) (sortN E))) sl_empty) as [sl [Hrun [HOA' Hperm]]].
   - apply OA_empty.
-  - exact NDl.
-  - intros e He. split.
+  - eapply Permutation_NoDup; [exact HP|exact NDl].
+  - intros e He. eapply Permutation_in in He; [|apply Permutation_sym; exact HP]. split.
     + apply Hmem in He. destruct He as [He _]. eapply entries_nonzero; eauto.
     + rewrite sl_values_empty. intros [].
-  - rewrite sl_values_empty, Hlen. cbn [length Nat.add]. lia.
+  - rewrite sl_values_empty, <- (Permutation_length HP), Hlen. cbn [length Nat.add]. lia.
   - exists sl. unfold rebuild. fold E. fold k.
     destruct (N.leb_spec (N.of_nat (length E)) k) as [Hbad|_]; [lia|].
-    rewrite Hrun. cbn [obind]. rewrite Hlen, N2Nat.id, N.eqb_refl. cbn [negb].
+    rewrite Hrun. cbn [obind]. rewrite <- (Permutation_length HP), Hlen, N2Nat.id, N.eqb_refl. cbn [negb].
     split; [reflexivity|]. split; [exact HOA'|].
-    rewrite sl_values_empty, app_nil_r in Hperm. exact Hperm.
+    rewrite sl_values_empty, app_nil_r in Hperm.
+    eapply Permutation_trans; [exact HP|exact Hperm].
 Qed.
+End Reorder2.
 
 (* ---------- capacity facts ---------- *)
 Lemma cap_lt_size : forall c lg, cfg_ok c -> lg_wf c lg -> get_capacity lg (c_lg_nom c) < 2 ^ lg.
@@ -212,7 +244,7 @@ Proof. intros c [H _]. destruct lgk_consts as [E _]. rewrite E in H. exact H. Qe
 (* ---------- the fresh sketch ---------- *)
 Lemma new_inv : forall c, cfg_ok c -> Inv c (sk_new c) [].
 Proof.
-  intros c Hc. unfold sk_new. split; [constructor|]; cbn [t_cfg t_lg_cur t_theta t_slots t_n].
+  intros c Hc. unfold sk_new. split; [split; [constructor|]|]; cbn [t_cfg t_lg_cur t_theta t_slots t_n t_empty].
   - reflexivity.
   - apply OA_empty.
   - unfold sk_entries. cbn [t_slots t_lg_cur]. rewrite sl_values_empty. reflexivity.
@@ -221,12 +253,14 @@ Proof.
   - now apply init_lg_wf.
   - unfold theta0. lia.
   - lia.
+  - reflexivity.
 Qed.
 
 (* ---------- resize keeps everything but the layout ---------- *)
 Lemma resize_inv : forall c s off, cfg_ok c -> InvW c s off ->
   t_lg_cur s <= c_lg_nom c -> t_n s <= 2 ^ t_lg_cur s / 2 + 1 ->
-  exists s', resize s = Ok s' /\ Inv c s' off /\ t_theta s' = t_theta s.
+  exists s', resize s = Ok s' /\ InvC c s' off /\ t_theta s' = t_theta s /\ t_empty s' = t_empty s /\
+             Permutation (sk_entries s) (sk_entries s').
 Proof.
   intros c s off Hc HW Hbelow Hcount.
   destruct HW as [Hcfg HOA Hn Hset Hth Hlg Hest].
@@ -242,7 +276,7 @@ Proof.
   - fold new_lg in Hrun, HOA', Hperm.
     eexists. split; [exact Hrun|].
     assert (Hwf : lg_wf c new_lg) by (unfold lg_wf; split; [lia|split; [lia|intro Z; contradiction]]).
-    split; [split; [constructor|]|]; cbn [t_cfg t_lg_cur t_theta t_slots t_n].
+    split; [split; [constructor|]|]; cbn [t_cfg t_lg_cur t_theta t_slots t_n t_empty].
     + exact Hcfg.
     + exact HOA'.
     + unfold sk_entries at 1. cbn [t_slots t_lg_cur]. rewrite <- (Permutation_length Hperm). exact Hn.
@@ -256,16 +290,22 @@ Proof.
       assert (Hp : 2 * 2 ^ t_lg_cur s <= 2 ^ new_lg).
       { rewrite <- pow2_succ. apply pow2_mono. lia. }
       rewrite Em in *. destruct (new_lg <=? c_lg_nom c); lia.
-    + reflexivity.
+    + split; [reflexivity|]. split; [reflexivity|].
+      unfold sk_entries at 2. cbn [t_slots t_lg_cur]. exact Hperm.
 Qed.
+
+Section Reorder3.
+Variable reorder : reorder_t.
+Hypothesis reorder_perm : reorder_ok reorder.
 
 (* ---------- rebuild: theta becomes the k-th order statistic, the k smallest stay ---------- *)
 Lemma rebuild_inv : forall c s off, cfg_ok c -> InvW c s off ->
   t_lg_cur s = c_lg_nom c + 1 -> 2 ^ c_lg_nom c < t_n s ->
-  exists s', rebuild s = Ok s' /\ Inv c s' off /\ t_theta s' < t_theta s /\
+  exists s', rebuild reorder s = Ok s' /\ InvC c s' off /\ t_theta s' < t_theta s /\
     t_theta s' = nth (N.to_nat (2 ^ c_lg_nom c)) (sortN (sk_entries s)) 0 /\
     t_n s' = 2 ^ c_lg_nom c /\
-    Permutation (firstn (N.to_nat (2 ^ c_lg_nom c)) (sortN (sk_entries s))) (sk_entries s').
+    Permutation (firstn (N.to_nat (2 ^ c_lg_nom c)) (sortN (sk_entries s))) (sk_entries s') /\
+    t_empty s' = t_empty s.
 Proof.
   intros c s off Hc HW Hlgmax Hmany.
   pose proof (entries_NoDup _ _ _ HW) as ND.
@@ -275,12 +315,12 @@ Proof.
   cbv zeta in *.
   set (th := nth (N.to_nat (2 ^ c_lg_nom c)) (sortN (sk_entries s)) 0) in *.
   assert (Hthlt : 0 < th /\ th < t_theta s) by (apply Hset in Hthin; tauto).
-  destruct (rebuild_spec s HOA) as [sl [Hrun [HOA' Hperm]]].
+  destruct (rebuild_spec reorder reorder_perm s HOA) as [sl [Hrun [HOA' Hperm]]].
   - rewrite Hcfg. exact Hk.
   - rewrite Hcfg, Hlgmax. apply pow2_mono. lia.
   - rewrite Hcfg in Hrun, Hperm. fold th in Hrun.
-    eexists. split; [exact Hrun|]. cbn [t_cfg t_lg_cur t_theta t_slots t_n].
-    split; [split; [constructor|]|]; cbn [t_cfg t_lg_cur t_theta t_slots t_n].
+    eexists. split; [exact Hrun|]. cbn [t_cfg t_lg_cur t_theta t_slots t_n t_empty].
+    split; [split; [constructor|]|]; cbn [t_cfg t_lg_cur t_theta t_slots t_n t_empty].
     + reflexivity.
     + exact HOA'.
     + unfold sk_entries at 1. cbn [t_slots t_lg_cur]. rewrite <- (Permutation_length Hperm), Hlen, N2Nat.id. reflexivity.
@@ -298,22 +338,29 @@ Proof.
     + rewrite (get_capacity_exact c _ Hc Hlg), Hlgmax, pow2_succ.
       destruct (pow2_split (c_lg_nom c) (lgnom_ge5 c Hc)) as [m [Em Hm]]. rewrite Em.
       destruct (c_lg_nom c + 1 <=? c_lg_nom c); lia.
-    + split; [lia|]. split; [reflexivity|]. split; [reflexivity|].
+    + split; [lia|]. split; [reflexivity|]. split; [reflexivity|]. split; [|reflexivity].
       unfold sk_entries at 2. cbn [t_slots t_lg_cur]. exact Hperm.
 Qed.
 
 (* ---------- update (any hash value) ---------- *)
 Lemma update_inv : forall c s off h, cfg_ok c -> Inv c s off ->
-  exists s', sk_update s h = Ok s' /\ Inv c s' (h :: off) /\ t_theta s' <= t_theta s.
+  exists s', sk_update reorder s h = Ok s' /\ Inv c s' (h :: off) /\ t_theta s' <= t_theta s.
 Proof.
-  intros c s off h Hc [HW Hcap].
+  intros c s off h Hc [[HW0 Hcap0] _].
+  set (s0 := mark_offered s).
+  assert (HW : InvW c s0 off) by (apply InvW_mark; exact HW0).
+  assert (Hcap : t_n s0 <= get_capacity (t_lg_cur s0) (c_lg_nom c)) by exact Hcap0.
+  assert (He0 : t_empty s0 = false) by reflexivity.
+  change (t_theta s) with (t_theta s0).
+  unfold sk_update. cbv zeta. fold s0.
+  clearbody s0. clear HW0 Hcap0 s. rename s0 into s.
   pose proof HW as [Hcfg HOA Hn Hset Hth Hlg Hest].
   assert (Hsame : (t_theta s <= h \/ h = 0 \/ In h (sk_entries s)) -> Inv c s (h :: off)).
-  { intros Hcase. split; [|exact Hcap]. constructor; try assumption.
+  { intros Hcase. split; [split; [|exact Hcap]|exact He0]. constructor; try assumption.
     - intros x. rewrite Hset. cbn [In]. split; [tauto|]. intros [[<-|Hin] [H0 Hlt]]; [|tauto].
       destruct Hcase as [Hge|[Hz|Hin]]; [lia|lia|]. apply Hset in Hin. tauto.
     - intros Hlt. specialize (Hest Hlt). pose proof (qual_mono c off h). lia. }
-  unfold sk_update, screen.
+  unfold screen.
   destruct (N.leb_spec (t_theta s) h) as [Hge|Hlt].
   { rewrite N.eqb_refl. exists s. split; [reflexivity|]. split; [apply Hsame; now left|lia]. }
   destruct (N.eqb_spec h 0) as [Hz|Hnz].
@@ -326,7 +373,7 @@ Proof.
   { rewrite Epresent, N.eqb_refl. cbn [obind fst]. exists s. split; [reflexivity|]. split; [|lia].
     apply Hsame. right. right. unfold sk_entries. apply sl_values_In. split; [exact Hnz|]. exists idx; auto. }
   rewrite E0. destruct (N.eqb_spec 0 h) as [|_]; [congruence|]. rewrite N.eqb_refl. cbn [negb].
-  set (s1 := mkSk (t_cfg s) (t_lg_cur s) (t_theta s) (sl_set (t_slots s) idx h) (t_n s + 1)).
+  set (s1 := mkSk (t_cfg s) (t_lg_cur s) (t_theta s) (sl_set (t_slots s) idx h) (t_n s + 1) false).
   assert (HW1 : InvW c s1 (h :: off)).
   { constructor; unfold s1; cbn [t_cfg t_lg_cur t_theta t_slots t_n].
     - exact Hcfg.
@@ -346,35 +393,35 @@ Proof.
   change (t_n s1) with (t_n s + 1). change (t_lg_cur s1) with (t_lg_cur s). change (t_cfg s1) with (t_cfg s).
   rewrite Hcfg.
   destruct (N.ltb_spec (get_capacity (t_lg_cur s) (c_lg_nom c)) (t_n s + 1)) as [Hfull|Hroom].
-  2:{ cbn [obind fst]. exists s1. split; [reflexivity|]. split; [split; [exact HW1|]|].
+  2:{ cbn [obind fst]. exists s1. split; [reflexivity|]. split; [split; [split; [exact HW1|]|reflexivity]|].
       - unfold s1. cbn [t_n t_lg_cur]. exact Hroom.
       - unfold s1. cbn [t_theta]. lia. }
   rewrite (get_capacity_exact c _ Hc Hlg) in Hfull, Hcap.
   destruct (N.leb_spec (t_lg_cur s) (c_lg_nom c)) as [Hbelow|Hmax].
-  - destruct (resize_inv c s1 (h :: off) Hc HW1) as [s2 [Hrun [Hinv2 Hth2]]].
+  - destruct (resize_inv c s1 (h :: off) Hc HW1) as [s2 [Hrun [Hinv2 [Hth2 [He2 _]]]]].
     + exact Hbelow.
     + unfold s1. cbn [t_n t_lg_cur]. lia.
-    + rewrite Hrun. cbn [obind fst]. exists s2. split; [reflexivity|]. split; [exact Hinv2|].
+    + rewrite Hrun. cbn [obind fst]. exists s2. split; [reflexivity|]. split; [split; [exact Hinv2|rewrite He2; reflexivity]|].
       rewrite Hth2. unfold s1. cbn [t_theta]. lia.
   - assert (Hlgmax : t_lg_cur s = c_lg_nom c + 1) by (destruct Hlg as [_ [Hle _]]; lia).
-    destruct (rebuild_inv c s1 (h :: off) Hc HW1) as [s2 [Hrun [Hinv2 [Hth2 _]]]].
+    destruct (rebuild_inv c s1 (h :: off) Hc HW1) as [s2 [Hrun [Hinv2 [Hth2 [_ [_ [_ He2]]]]]]].
     + exact Hlgmax.
     + unfold s1. cbn [t_n]. rewrite Hlgmax, pow2_succ in Hfull.
       destruct (pow2_split (c_lg_nom c) (lgnom_ge5 c Hc)) as [m [Em Hm]]. rewrite Em in *. lia.
-    + rewrite Hrun. cbn [obind fst]. exists s2. split; [reflexivity|]. split; [exact Hinv2|].
+    + rewrite Hrun. cbn [obind fst]. exists s2. split; [reflexivity|]. split; [split; [exact Hinv2|rewrite He2; reflexivity]|].
       unfold s1 in Hth2. cbn [t_theta] in Hth2. lia.
 Qed.
 
 (* ---------- trim ---------- *)
 Lemma trim_inv : forall c s off, cfg_ok c -> Inv c s off ->
-  exists s', sk_trim s = Ok s' /\ Inv c s' off /\ t_theta s' <= t_theta s /\
+  exists s', sk_trim reorder s = Ok s' /\ Inv c s' off /\ t_theta s' <= t_theta s /\
     (t_n s <= 2 ^ c_lg_nom c -> s' = s) /\
     (2 ^ c_lg_nom c < t_n s ->
        t_theta s' = nth (N.to_nat (2 ^ c_lg_nom c)) (sortN (sk_entries s)) 0 /\
        t_n s' = 2 ^ c_lg_nom c /\
        Permutation (firstn (N.to_nat (2 ^ c_lg_nom c)) (sortN (sk_entries s))) (sk_entries s')).
 Proof.
-  intros c s off Hc [HW Hcap]. pose proof HW as [Hcfg HOA Hn Hset Hth Hlg Hest].
+  intros c s off Hc [[HW Hcap] Hemp]. pose proof HW as [Hcfg HOA Hn Hset Hth Hlg Hest].
   unfold sk_trim. rewrite Hcfg.
   destruct (N.ltb_spec (2 ^ c_lg_nom c) (t_n s)) as [Hmany|Hfew].
   - assert (Hlgmax : t_lg_cur s = c_lg_nom c + 1).
@@ -382,9 +429,9 @@ Proof.
       rewrite (get_capacity_exact c _ Hc (w_lg _ _ _ HW)) in Hcap.
       destruct (N.leb_spec (t_lg_cur s) (c_lg_nom c)); [|lia].
       pose proof (pow2_mono _ _ Hb). pose proof (pow2_pos (t_lg_cur s)). lia. }
-    destruct (rebuild_inv c s off Hc HW Hlgmax Hmany) as [s2 [Hrun [Hinv2 [Hth2 [Hth2' [Hn2 Hperm]]]]]].
-    exists s2. split; [exact Hrun|]. split; [exact Hinv2|]. split; [lia|]. split; [lia|]. intros _. auto.
-  - exists s. split; [reflexivity|]. split; [split; assumption|]. split; [lia|]. split; [reflexivity|lia].
+    destruct (rebuild_inv c s off Hc HW Hlgmax Hmany) as [s2 [Hrun [Hinv2 [Hth2 [Hth2' [Hn2 [Hperm He2]]]]]]].
+    exists s2. split; [exact Hrun|]. split; [split; [exact Hinv2|congruence]|]. split; [lia|]. split; [lia|]. intros _. auto.
+  - exists s. split; [reflexivity|]. split; [split; [split; assumption|assumption]|]. split; [lia|]. split; [reflexivity|lia].
 Qed.
 
 (* ---------- reset ---------- *)
@@ -393,12 +440,12 @@ Proof. reflexivity. Qed.
 
 Lemma reset_inv : forall c s off, cfg_ok c -> Inv c s off -> Inv c (sk_reset s) [].
 Proof.
-  intros c s off Hc [HW _]. rewrite reset_is_new, (w_cfg _ _ _ HW). now apply new_inv.
+  intros c s off Hc [[HW _] _]. rewrite reset_is_new, (w_cfg _ _ _ HW). now apply new_inv.
 Qed.
 
 (* ---------- arbitrary histories ---------- *)
 Lemma step_inv : forall c s off o, cfg_ok c -> Inv c s off ->
-  exists s', step_op s o = Ok s' /\ Inv c s' (offered_step off o) /\
+  exists s', step_op reorder s o = Ok s' /\ Inv c s' (offered_step off o) /\
              (o <> OReset -> t_theta s' <= t_theta s).
 Proof.
   intros c s off o Hc HI. destruct o as [h| | |b]; cbn [step_op offered_step].
@@ -409,7 +456,7 @@ Proof.
 Qed.
 
 Lemma run_inv_from : forall c ops s off, cfg_ok c -> Inv c s off ->
-  exists s', run_ops s ops = Ok s' /\ Inv c s' (offered_from off ops).
+  exists s', run_ops reorder s ops = Ok s' /\ Inv c s' (offered_from off ops).
 Proof.
   intros c ops. induction ops as [|o r IH]; intros s off Hc HI; cbn [run_ops offered_from fold_left].
   - exists s. auto.
@@ -418,5 +465,7 @@ Proof.
 Qed.
 
 Theorem run_inv : forall c ops, cfg_ok c ->
-  exists s, run_ops (sk_new c) ops = Ok s /\ Inv c s (offered ops).
+  exists s, run_ops reorder (sk_new c) ops = Ok s /\ Inv c s (offered ops).
 Proof. intros c ops Hc. apply run_inv_from; [exact Hc|now apply new_inv]. Qed.
+
+End Reorder3.
